@@ -29,6 +29,7 @@ type faultPlan struct {
 	failAt int
 	fired  string
 	log    []string
+	outage bool // the source cannot be opened at all at the moment
 	// concurrency monitor
 	writers    map[string]int
 	maxWriters int
@@ -55,6 +56,15 @@ type faultSource struct {
 }
 
 func (s *faultSource) Open(name string) (hackpadfs.File, error) {
+	s.plan.mu.Lock()
+	outage := s.plan.outage
+	s.plan.mu.Unlock()
+	if outage {
+		return nil, &hackpadfs.PathError{Op: "open", Path: name, Err: errFill}
+	}
+	if err := s.plan.call("source.Open"); err != nil {
+		return nil, &hackpadfs.PathError{Op: "open", Path: name, Err: err}
+	}
 	f, err := s.inner.Open(name)
 	if err != nil {
 		return nil, err
@@ -187,6 +197,7 @@ var c11sizes = []int{1, 511, 512, 513, 1500, 5000}
 
 type c11case struct {
 	Part  string `json:"part"` // fault | gated | free
+	Mode  uint32 `json:"mode,omitempty"` // mode of the source file (0 = 0644)
 	Size  int    `json:"size,omitempty"`
 	Store string `json:"store,omitempty"` // minimal | full
 	Rep   int    `json:"rep,omitempty"`
@@ -197,6 +208,12 @@ func c11cases(env *core.Env) []c11case {
 	for _, size := range c11sizes {
 		for _, store := range []string{"minimal", "full", "minimal-writeback", "full-writeback"} {
 			cs = append(cs, c11case{Part: "fault", Size: size, Store: store})
+			// special mode bits make the cache take its chmod-the-copy path
+			for _, m := range []hackpadfs.FileMode{hackpadfs.ModeSetuid | 0o755, hackpadfs.ModeSticky | 0o644, hackpadfs.ModeSetgid | hackpadfs.ModeSticky | 0o700} {
+				if size == 1 || size == 513 || size == 5000 {
+					cs = append(cs, c11case{Part: "fault", Size: size, Store: store, Mode: uint32(m)})
+				}
+			}
 		}
 	}
 	for i := 0; i < env.Pick(600, 6000); i++ {
@@ -243,13 +260,18 @@ type c11world struct {
 	cache *cache.ReadOnlyFS
 }
 
-func newC11World(storeKind string, files map[string][]byte) (*c11world, error) {
+func newC11World(storeKind string, files map[string][]byte, mode ...uint32) (*c11world, error) {
 	w := &c11world{plan: &faultPlan{failAt: -1}}
 	w.src, _ = mem.NewFS()
 	_ = hackpadfs.MkdirAll(w.src, "d/e", 0o755)
 	for name, data := range files {
 		if err := hackpadfs.WriteFullFile(w.src, name, data, 0o644); err != nil {
 			return nil, err
+		}
+		if len(mode) > 0 && mode[0] != 0 {
+			if err := hackpadfs.Chmod(w.src, name, hackpadfs.FileMode(mode[0])); err != nil {
+				return nil, err
+			}
 		}
 	}
 	w.store, _ = mem.NewFS()
@@ -292,7 +314,7 @@ func c11fault(env *core.Env, cs c11case, res *core.CaseResult) {
 	name := "d/e/file"
 	want := c11data(cs.Size)
 	files := map[string][]byte{name: want}
-	clean, err := newC11World(cs.Store, files)
+	clean, err := newC11World(cs.Store, files, cs.Mode)
 	if err != nil {
 		res.Inconclusive = err.Error()
 		return
@@ -305,8 +327,9 @@ func c11fault(env *core.Env, cs c11case, res *core.CaseResult) {
 	sites := append([]string(nil), clean.plan.log...)
 	res.Evals = n
 	res.Sample = map[string]any{"case": cs, "calls_of_a_clean_fill": sites}
-	for k := 0; k < n; k++ {
-		w, err := newC11World(cs.Store, files)
+	for kk := 0; kk < 2*n; kk++ {
+		k, outage := kk%n, kk >= n // second round: the first retry after the failed fill meets a source that cannot be opened
+		w, err := newC11World(cs.Store, files, cs.Mode)
 		if err != nil {
 			res.Inconclusive = err.Error()
 			return
@@ -325,9 +348,9 @@ func c11fault(env *core.Env, cs c11case, res *core.CaseResult) {
 			continue
 		}
 		res.Count("fault_runs", 1)
-		res.NTKeys = append(res.NTKeys, core.Hash([]any{cs, k}))
+		res.NTKeys = append(res.NTKeys, core.Hash([]any{cs, k, outage}))
 		res.Seen("fault_sites", cs.Store+"|"+w.plan.fired)
-		wit := map[string]any{"case": cs, "fault_index": k, "site": w.plan.fired, "fill_calls": sites}
+		wit := map[string]any{"case": cs, "fault_index": k, "site": w.plan.fired, "fill_calls": sites, "source_outage_during_first_retry": outage}
 		if oerr == nil {
 			// the Open claims success: it may only do so if what it hands out is complete
 			got, rerr := io.ReadAll(f)
@@ -341,7 +364,18 @@ func c11fault(env *core.Env, cs c11case, res *core.CaseResult) {
 		// later, fault-free opens: complete bytes or an error
 		w.plan.mu.Lock()
 		w.plan.failAt = -1
+		w.plan.outage = outage
 		w.plan.mu.Unlock()
+		if outage {
+			got, err := readAll(w.cache, name)
+			if err == nil && string(got) != string(want) {
+				res.Violate(fmt.Sprintf("C11|%s|fault:%s|later-open-partial", cs.Store, w.plan.fired), fmt.Sprintf("after a fill that failed at %s (call #%d), a re-open while the source could not be opened delivered %d of %d bytes without an error", w.plan.fired, k, len(got), len(want)), wit)
+			}
+			res.Count("retries_during_source_outage", 1)
+			w.plan.mu.Lock()
+			w.plan.outage = false
+			w.plan.mu.Unlock()
+		}
 		for again := 0; again < 3; again++ {
 			got, err := readAll(w.cache, name)
 			if err == nil && string(got) != string(want) {
